@@ -188,6 +188,8 @@ def load_check(pid):
 def run_one(mod, tier, seed=None, values=None):
     """run one case; exceptions escaping the harness are HarnessError"""
     tape = Tape(seed=seed, values=values)
+    saved_err = sys.stderr
+    sys.stderr = _DEVNULL    # hio writes parse errors to sys.stderr; never part of any digest
     try:
         res = mod.run_case(tape, tier)
     except HarnessError:
@@ -195,7 +197,20 @@ def run_one(mod, tier, seed=None, values=None):
     except BaseException as ex:  # a bug in the harness, never a violation
         raise HarnessError("harness exception in %s: %s\n%s" % (
             mod.PID, repr(ex), traceback.format_exc())) from ex
+    finally:
+        sys.stderr = saved_err
     return tape, res
+
+
+class _DevNull:
+    def write(self, s):
+        return len(s)
+
+    def flush(self):
+        pass
+
+
+_DEVNULL = _DevNull()
 
 
 def classify(res, known):
